@@ -119,7 +119,17 @@ def expand_literal(c, pol):
         return out
     if c[0] == "not":
         return expand_literal(c[1], not pol)
+    if c[0] == "cmp" and not pol and c[1] in NEGATE:
+        return [((("cmp", NEGATE[c[1]], c[2], c[3]), True),)]  # canonical form: comparisons are stored positively
     return [((c, pol),)]
+
+
+def neg_lit(lit):
+    """Canonical negation of a literal (comparisons are stored positively with the negated operator)."""
+    c, pol = lit
+    if c[0] == "cmp" and c[1] in NEGATE:
+        return (("cmp", NEGATE[c[1]], c[2], c[3]), True) if pol else (c, True)
+    return (c, not pol)
 
 
 def dnf_and(dnf, c, pol):
@@ -129,7 +139,7 @@ def dnf_and(dnf, c, pol):
             new = conj
             dead = False
             for lit in lits:
-                if (lit[0], not lit[1]) in new:
+                if neg_lit(lit) in new or (lit[0], not lit[1]) in new:
                     dead = True
                     break
                 if lit not in new:
@@ -154,7 +164,7 @@ def _dnf_simplify(conjs):
                 if len(a) == len(b):
                     da = [l for l in a if l not in b]
                     db = [l for l in b if l not in a]
-                    if len(da) == 1 and len(db) == 1 and da[0][0] == db[0][0] and da[0][1] != db[0][1]:
+                    if len(da) == 1 and len(db) == 1 and (neg_lit(da[0]) == db[0] or (da[0][0] == db[0][0] and da[0][1] != db[0][1])):
                         conjs[i] = tuple(l for l in a if l != da[0])
                         del conjs[j]
                         changed = True
